@@ -268,3 +268,31 @@ package ugo
 //@ modifies vm.sp, vm.ip, vm.stack, vm.curFrame, vm.frameIndex, vm.curInsts, vm.frames, vm.constants
 //@ trusted
 //@ property C03
+
+// ---------------------------------------------------------------------------
+// C05 / C11: instruction encoding is exact: an instruction is produced iff
+// the operands fit the opcode's operand table, it has the table's length and
+// decodes back to the same operands; no panic for a known opcode.
+
+//@ const OpcodeOperands
+
+//@ lemma opcodeArity
+//@ vars op Opcode
+//@ requires int(op) < len(OpcodeOperands)
+//@ ensures[arity]  len(OpcodeOperands[op]) <= 2
+//@ ensures[widths] forall i int :: 0 <= i && i < len(OpcodeOperands[op]) ==> OpcodeOperands[op][i] == 1 || OpcodeOperands[op][i] == 2 || OpcodeOperands[op][i] == 4
+//@ cases op: 0..43
+//@ property C05 C11
+
+//@ func MakeInstruction
+//@ params buf op args
+//@ results out err
+//@ requires int(op) < len(OpcodeOperands) && len(args) < 1<<30
+//@ ensures[iff]   (err == nil) == specOperandsOK(op, args)
+//@ ensures[len]   err == nil ==> len(out) == specInstLen(op) && out[0] == byte(op)
+//@ ensures[read]  err == nil ==> forall i int :: 0 <= i && i < len(args) ==> specOperandAt(out, op, i) == args[i]
+//@ loop 0 invariant len(args) == len(OpcodeOperands[op]) && 0 <= verifIdx && verifIdx <= len(args)
+//@ loop 0 invariant forall k int :: 0 <= k && k < verifIdx ==> 0 <= args[k] && args[k] <= specMaxOperand(specWidthAt(op, k))
+//@ modifies buf[*]
+//@ cases op: 0..43
+//@ property C05 C11
